@@ -27,8 +27,8 @@ theorem genMops_ok : MaskOk genMops := by
   have h64 : TieA.CMask.LenOk (⟨m.bytes⟩ : Gen.ChannelMaskFn.ChannelMask)._0.length := by
     simp only [TieA.CMask.LenOk, hlen]; decide
   refine ⟨?_, fun b => ?_⟩
-  · exact (TieA.CMask.is_enabled_tie ⟨m.bytes⟩ hoct hl h64 i h0).1
-  · have := TieA.CMask.set_channel_tie ⟨m.bytes⟩ hoct i h0 b
+  · exact (TieA.CMask.is_enabled_tie ⟨m.bytes⟩ hoct hl h64 i h0 (by omega)).1
+  · have := TieA.CMask.set_channel_tie ⟨m.bytes⟩ hoct i h0 (by omega) b
     simp only [genMops, Option.map_map]
     exact this
 
@@ -38,7 +38,7 @@ theorem genMops_is_enabled_ok (m : Gen.DynPlanFn.ChannelMask) (i : Int) (h0 : 0 
   have hl : 0 < (⟨m.bytes⟩ : Gen.ChannelMaskFn.ChannelMask)._0.length := by simp only [hlen]; decide
   have h64 : TieA.CMask.LenOk (⟨m.bytes⟩ : Gen.ChannelMaskFn.ChannelMask)._0.length := by
     simp only [TieA.CMask.LenOk, hlen]; decide
-  exact (TieA.CMask.is_enabled_tie ⟨m.bytes⟩ hoct hl h64 i h0).2 (by simp only [hlen]; omega)
+  exact (TieA.CMask.is_enabled_tie ⟨m.bytes⟩ hoct hl h64 i h0 (by omega)).2 (by simp only [hlen]; omega)
 
 #print axioms genMops_ok
 end TieA.DynMask
